@@ -466,6 +466,17 @@ func ruleR12(c *Ctx) *RuleResult {
 					bad = append(bad, fmt.Sprintf("the key-present path stores key=%v value=%v of the existing entry (both are replaced by a Put)", k, v))
 				}
 			}
+			if pf.kind == "found" {
+				// the slot that takes the new entry is the very position the search reported (found ⇒ Entries[pos] holds
+				// the key): an offset to it overwrites a neighbour or indexes past the node
+				for _, ef := range g.Effects {
+					if isStore(ef) && ef.Args[0].Op == "ia" && len(ef.Args[0].Args) == 2 {
+						if idx := ef.Args[0].Args[1]; (idx.Op == "+" || idx.Op == "-") && idx.any(func(t *Term) bool { return t.Op == "call" && strings.HasSuffix(t.Leaf, ".search") }) {
+							bad = append(bad, "the key-present path stores the entry at an offset from the position the search found the key at: "+trunc(noEpoch(idx), 200))
+						}
+					}
+				}
+			}
 			if pf.kind != "cmp" && len(g.Effects) == 0 {
 				bad = append(bad, "the key-present path stores nothing: the value of the most recent Put is lost")
 			}
@@ -485,8 +496,191 @@ func ruleR12(c *Ctx) *RuleResult {
 			r.add(Obligation{Key: "R12d:" + key, Rule: "R12d", Clause: clD, Pos: p.FuncPos(fn), Status: Discharged, Facts: fmt.Sprintf("%d key-present path(s): only key/value of the existing entry are stored", n)})
 		}
 	}
+	ruleR12dDescent(c, r)
 	ruleR12f(c, r)
 	return r
+}
+
+// ruleR12dDescent — B-tree: the insertion descent looks at the key it passes. `search(node, key)` answers (position, found);
+// on the way down to a leaf the insertion side hands `node.Children[position]` on (to the next round or the next call) only
+// on paths that know found == false — a key that sits in an internal node as a separator is replaced there, not inserted a
+// second time below it (three independent seeds turned the recursion into a loop that dropped `found`).
+func ruleR12dDescent(c *Ctx, r *RuleResult) {
+	p := c.p
+	clause := "R12d-descent the B-tree's insertion descent continues into Children[pos] of search(node, key) only on paths that know the key is not in node"
+	ct := typeByKey(p, "trees/btree.Tree")
+	if ct == nil {
+		return
+	}
+	ms := methodsOf(p, ct)
+	put := ms["Put"]
+	if put == nil {
+		r.add(Obligation{Key: "R12d:trees/btree.Tree.descent", Rule: "R12d", Clause: clause, Pos: "-", Status: Undecided, Facts: "Put not found"})
+		return
+	}
+	reach := func(from *ssa.Function, stop map[*ssa.Function]bool) map[*ssa.Function]bool {
+		seen := map[*ssa.Function]bool{}
+		var walk func(f *ssa.Function)
+		walk = func(f *ssa.Function) {
+			if f == nil || seen[f] || stop[f] || f.Blocks == nil {
+				return
+			}
+			seen[f] = true
+			for _, cl := range allCalls(f) {
+				if cal := StaticCallee(cl.Common()); cal != nil && p.IsLib(cal) {
+					walk(origin(cal))
+				}
+			}
+		}
+		walk(from)
+		return seen
+	}
+	stop := map[*ssa.Function]bool{}
+	if sp := anchorFn(p, "trees/btree.Tree", "split"); sp != nil {
+		stop = reach(sp, nil)
+	}
+	if se := ms["search"]; se != nil {
+		stop[se] = true
+	}
+	fam := reach(put, stop)
+	var bad []string
+	n := 0
+	var names []string
+	for fn := range fam {
+		names = append(names, p.FuncKey(fn))
+	}
+	sort.Strings(names)
+	for _, name := range names {
+		var fn *ssa.Function
+		for f := range fam {
+			if p.FuncKey(f) == name {
+				fn = f
+			}
+		}
+		gc := c.GC(fn)
+		if gc.Undecided != "" {
+			continue
+		}
+		// loop variables that carry search's results for the node another loop variable holds: on every edge into cut k,
+		// slot j receives (ext:0 search(_, N, _)) and slot f (ext:1 of the same call), N being what slot n receives
+		type carried struct{ node, found string }
+		carry := map[string]carried{} // "φ:k.j" → node φ, found φ
+		{
+			type edgeInfo struct{ pos, fnd map[int]int }
+			per := map[string][]edgeInfo{}
+			for _, g := range gc.GCs {
+				if g.Exit.Op != "goto" {
+					continue
+				}
+				ei := edgeInfo{map[int]int{}, map[int]int{}}
+				for j, a := range g.Exit.Args {
+					if a.Op == "ext" && len(a.Args) == 1 && a.Args[0].Op == "call" && strings.HasSuffix(a.Args[0].Leaf, ".search") && len(a.Args[0].Args) >= 3 {
+						for n2, b := range g.Exit.Args {
+							if n2 != j && noEpoch(b) == noEpoch(a.Args[0].Args[2]) {
+								if a.Leaf == "0" {
+									ei.pos[j] = n2
+								} else if a.Leaf == "1" {
+									ei.fnd[j] = n2
+								}
+							}
+						}
+					}
+				}
+				per[g.Exit.Leaf] = append(per[g.Exit.Leaf], ei)
+			}
+			for k, eis := range per {
+				for j, n2 := range eis[0].pos {
+					all := true
+					for _, e := range eis[1:] {
+						if v, ok := e.pos[j]; !ok || v != n2 {
+							all = false
+						}
+					}
+					if !all {
+						continue
+					}
+					for f, n3 := range eis[0].fnd {
+						if n3 != n2 {
+							continue
+						}
+						allF := true
+						for _, e := range eis[1:] {
+							if v, ok := e.fnd[f]; !ok || v != n2 {
+								allF = false
+							}
+						}
+						if allF {
+							carry["φ:"+k+"."+itoa(j)] = carried{"φ:" + k + "." + itoa(n2), "φ:" + k + "." + itoa(f)}
+						}
+					}
+				}
+			}
+		}
+		for _, g := range gc.GCs {
+			// Children[ext:0 search(N, …)] of the same node N, handed on
+			type hop struct {
+				call  *Term
+				found string
+			}
+			var hops []hop
+			see := func(t *Term) bool {
+				if t.Op != "ia" || len(t.Args) != 2 {
+					return false
+				}
+				ch := t.Args[0]
+				if !(ch.Op == "load" && len(ch.Args) == 1 && ch.Args[0].Op == "fa" && ch.Args[0].Leaf == "Children" && len(ch.Args[0].Args) == 1) {
+					return false
+				}
+				if t.Args[1].Op == "ext" && t.Args[1].Leaf == "0" && len(t.Args[1].Args) == 1 {
+					if call := t.Args[1].Args[0]; call.Op == "call" && strings.HasSuffix(call.Leaf, ".search") && len(call.Args) >= 3 {
+						if noEpoch(ch.Args[0].Args[0]) == noEpoch(call.Args[2]) {
+							hops = append(hops, hop{call: call})
+						}
+					}
+				}
+				if t.Args[1].Op == "φ" {
+					if cr, ok := carry[t.Args[1].String()]; ok && ch.Args[0].Args[0].String() == cr.node {
+						hops = append(hops, hop{found: cr.found})
+					}
+				}
+				return false
+			}
+			g.Exit.any(see)
+			for _, ef := range g.Effects {
+				if ef.Op == "do" || ef.Op == "call" {
+					ef.any(see)
+				}
+			}
+			for _, h := range hops {
+				n++
+				knowsAbsent := false
+				for _, a := range g.Guards {
+					if a.Op != "!" || len(a.Args) != 1 {
+						continue
+					}
+					x := a.Args[0]
+					if h.call != nil && x.Op == "ext" && x.Leaf == "1" && len(x.Args) == 1 && noEpoch(x.Args[0]) == noEpoch(h.call) {
+						knowsAbsent = true
+					}
+					if h.call == nil && x.String() == h.found {
+						knowsAbsent = true
+					}
+				}
+				if !knowsAbsent {
+					bad = append(bad, fmt.Sprintf("%s descends into Children[position] without knowing that the search did not find the key in the node: %s", name, trunc(guardsString(g), 200)))
+				}
+			}
+		}
+	}
+	key := "R12d:trees/btree.Tree.descent"
+	switch {
+	case len(bad) > 0:
+		r.add(Obligation{Key: key, Rule: "R12d", Clause: clause, Pos: p.FuncPos(put), Status: Violated, Facts: strings.Join(dedup(bad), "\n")})
+	case n == 0:
+		r.add(Obligation{Key: key, Rule: "R12d", Clause: clause, Pos: p.FuncPos(put), Status: Undecided, Facts: "no descent through Children[search position] found on the insertion side (" + strings.Join(names, ", ") + ")"})
+	default:
+		r.add(Obligation{Key: key, Rule: "R12d", Clause: clause, Pos: p.FuncPos(put), Status: Discharged, Facts: fmt.Sprintf("%d descending path(s) in %s, each knows found == false", n, strings.Join(names, ", "))})
+	}
 }
 
 func dedup(xs []string) []string {
